@@ -39,7 +39,7 @@ JVM = {"JAVA_TOOL_OPTIONS": "-XX:ParallelGCThreads=2 -XX:TieredStopAtLevel=1"}  
 
 def validate_all(ctx, streams, workers=10):
     """streams = [(events, tag, nchunks, source)].  Validates every chunk through Trace_BlobRef (one pool for
-    all streams), classifies every VIOL; returns the number of lines with differences."""
+    all streams); returns [(event, VIOL text, source)] for every line with differences."""
     ctx.specs()
     jobs = []
     for evs, tag, nchunks, source in streams:
@@ -55,17 +55,19 @@ def validate_all(ctx, streams, workers=10):
         if not r["accepted"]:
             raise vlib.MachineryError("trace %s@%d not fully consumed: %s" % (tag, off, r["out"][-1500:]))
         return j, r["viols"]
-    nv = 0
+    found = []
     with ThreadPoolExecutor(max_workers=workers) as ex:
         for (evs, tag, source, off, part), viols in ex.map(work, jobs):
             for line, text in viols:
-                nv += 1
-                classify(ctx, evs[off + line - 1], text, source)
-    return nv
+                found.append((evs[off + line - 1], text, source))
+    return found
 
 
 def validate(ctx, evs, tag, nchunks, source):
-    return validate_all(ctx, [(evs, tag, nchunks, source)])
+    found = validate_all(ctx, [(evs, tag, nchunks, source)])
+    for ev, text, src in found:
+        classify(ctx, ev, text, src)
+    return len(found)
 
 
 def text_of(a):
@@ -203,20 +205,46 @@ def run(ctx, replay):
     quick = ctx.quick()
     maxlen = 6 if quick else 7
     ctx.specs()
-    # ---- S and G (TLC) in parallel
-    with ThreadPoolExecutor(max_workers=4) as ex:
+    # ---- three pipelines (gen -> driver -> validation) and leg S, concurrently
+    nf = 3000 if quick else 40000
+    src = {"tier": ctx.tier, "seed": ctx.seed, "fuzz": nf}
+
+    def pipe_strings():
+        strs_in = ctx.tlc_gen("BlobRefGen", "BlobRefGen.cfg", overrides={"MaxLen": maxlen}, tag="STR", timeout=1800, workers=1 if quick else 4)
+        want = sum(7 ** k for k in range(maxlen + 1))
+        if len(strs_in) != want or len(set(tuple(x["s"]) for x in strs_in)) != want:
+            raise vlib.MachineryError("string enumeration incomplete: %d of %d" % (len(strs_in), want))
+        sf = ctx.path("strs.jsonl")
+        vlib.write_jsonl(sf, [{"s": x["s"]} for x in strs_in])
+        evs = drive(ctx, drv, ["-strings", sf], ctx.path("o_str.ndjson"))
+        if len(evs) != len(strs_in):
+            raise vlib.MachineryError("driver dropped strings: %d/%d" % (len(evs), len(strs_in)))
+        return strs_in, evs, validate_all(ctx, [(evs, "str", 6 if quick else 16, dict(src, leg="G-strings"))], workers=6 if quick else 10)
+
+    def pipe_pairs():
+        pairs_in = ctx.tlc_gen("BlobRefGen", "BlobRefGen.cfg", overrides={"Mode": '"pair"'}, tag="PAIR")
+        pf = ctx.path("pairs.jsonl")
+        vlib.write_jsonl(pf, pairs_in)
+        evs = drive(ctx, drv, ["-pairs", pf], ctx.path("o_pair.ndjson"))
+        if len(evs) != len(pairs_in):
+            raise vlib.MachineryError("driver dropped pairs: %d/%d" % (len(evs), len(pairs_in)))
+        good = [e for e in evs if e["ev"] == "pair"]
+        return pairs_in, evs, validate_all(ctx, [(good, "pair", 5, dict(src, leg="G-pairs"))], workers=5)
+
+    def pipe_fuzz():
+        evs = drive(ctx, drv, ["-fuzz", str(nf), "-seed", str(ctx.seed)], ctx.path("o_fuzz.ndjson"))
+        good = [e for e in evs if e["ev"] != "pairfail"]     # a fuzz pair with a malformed side is not a case
+        return evs, good, validate_all(ctx, [(good, "fuzz", 3 if quick else 12, dict(src, leg="T-fuzz"))], workers=3 if quick else 6)
+
+    with ThreadPoolExecutor(max_workers=5) as ex:
         f_s = ex.submit(ctx.tlc_check, "BlobRef", "BlobRef.cfg", None, 4)
         f_sens = ex.submit(lambda: ctx.tlc_check("BlobRef", "BlobRef.cfg", overrides={"Dash": 99}, workers=2, expect_violation="Agree"))
-        f_gs = ex.submit(lambda: ctx.tlc_gen("BlobRefGen", "BlobRefGen.cfg", overrides={"MaxLen": maxlen}, tag="STR", timeout=1800,
-                                             workers=1 if quick else 4))
-        f_gp = ex.submit(lambda: ctx.tlc_gen("BlobRefGen", "BlobRefGen.cfg", overrides={"Mode": '"pair"'}, tag="PAIR"))
+        f_a, f_b, f_c = ex.submit(pipe_strings), ex.submit(pipe_pairs), ex.submit(pipe_fuzz)
         f_s.result()
         f_sens.result()
-        strs_in = f_gs.result()
-        pairs_in = f_gp.result()
-    want = sum(7 ** k for k in range(maxlen + 1))
-    if len(strs_in) != want or len(set(tuple(x["s"]) for x in strs_in)) != want:
-        raise vlib.MachineryError("string enumeration incomplete: %d of %d" % (len(strs_in), want))
+        strs_in, e_str, v_str = f_a.result()
+        pairs_in, e_pair, v_pair = f_b.result()
+        fuzz_all, e_fuzz, v_fuzz = f_c.result()
     classes = {}
     for x in strs_in:
         k = x["class"] + ("+odd" if x["odd"] else "")
@@ -228,27 +256,14 @@ def run(ctx, replay):
     ctx.count("G", strings=len(strs_in), pair_cases=len(pairs_in), **{"class_" + k.replace("+", "_"): v for k, v in classes.items()})
     for c in pairs_in:
         ctx.distinct("p:" + json.dumps(c, sort_keys=True))
-    # ---- drivers
-    sf, pf = ctx.path("strs.jsonl"), ctx.path("pairs.jsonl")
-    vlib.write_jsonl(sf, [{"s": x["s"]} for x in strs_in])
-    vlib.write_jsonl(pf, pairs_in)
-    nf = 3000 if quick else 40000
-    with ThreadPoolExecutor(max_workers=3) as ex:
-        f1 = ex.submit(drive, ctx, drv, ["-strings", sf], ctx.path("o_str.ndjson"))
-        f2 = ex.submit(drive, ctx, drv, ["-pairs", pf], ctx.path("o_pair.ndjson"))
-        f3 = ex.submit(drive, ctx, drv, ["-fuzz", str(nf), "-seed", str(ctx.seed)], ctx.path("o_fuzz.ndjson"))
-        e_str, e_pair, e_fuzz = f1.result(), f2.result(), f3.result()
     ctx.log("driver: %d string lines, %d pair lines, %d fuzz lines" % (len(e_str), len(e_pair), len(e_fuzz)))
-    if len(e_str) != len(strs_in) or len(e_pair) != len(pairs_in):
-        raise vlib.MachineryError("driver dropped inputs: %d/%d strings, %d/%d pairs" % (len(e_str), len(strs_in), len(e_pair), len(pairs_in)))
     if any(e["ev"] == "pairfail" for e in e_pair):
         bad = next(e for e in e_pair if e["ev"] == "pairfail")
         ctx.discrepancy("C20/pair/supported/parse/t->f", "a concretised supported ref does not parse: %r / %r" % (text_of(bad["ta"]), text_of(bad["tb"])),
                         {"property": "C20", "kind": "pair", "input": {"ta": bad["ta"], "tb": bad["tb"]}})
         e_pair = [e for e in e_pair if e["ev"] == "pair"]
     f_hash = [e for e in e_fuzz if e["ev"] == "hash"]
-    f_pairs = [e for e in e_fuzz if e["ev"] in ("pair", "pairfail")]
-    e_fuzz = [e for e in e_fuzz if e["ev"] != "pairfail"]     # a fuzz pair with a malformed side is not a case
+    f_pairs = [e for e in e_fuzz if e["ev"] == "pair"]
     ctx.sample({"string": text_of(e_str[len(e_str) // 3]["s"]), "obs": e_str[len(e_str) // 3]["obs"]})
     wf = [e for e in e_str if e["obs"]["parse"] == "t"]
     ctx.sample({"string": text_of(wf[len(wf) // 2]["s"]), "obs": wf[len(wf) // 2]["obs"],
@@ -256,13 +271,13 @@ def run(ctx, replay):
     ctx.sample({"pair": [text_of(e_pair[len(e_pair) // 2]["ta"]), text_of(e_pair[len(e_pair) // 2]["tb"])],
                 "less": e_pair[len(e_pair) // 2]["less"], "case": e_pair[len(e_pair) // 2]["case"]})
     ctx.sample({"fuzz_string": text_of(e_fuzz[7]["s"]), "obs": e_fuzz[7]["obs"]})
-    # ---- T
-    src = {"tier": ctx.tier, "seed": ctx.seed, "fuzz": nf}
-    nv = validate_all(ctx, [(e_pair, "pair", 5, dict(src, leg="G-pairs")),
-                            (e_str, "str", 6 if quick else 16, dict(src, leg="G-strings")),
-                            (e_fuzz, "fuzz", 3 if quick else 12, dict(src, leg="T-fuzz"))])
+    # ---- classification of every line Trace_BlobRef found differences in
+    found = v_str + v_pair + v_fuzz
+    for ev, text, s in found:
+        classify(ctx, ev, text, s)
+    nv = len(found)
     ctx.log("T: %d lines validated by Trace_BlobRef, %d with differences" % (len(e_str) + len(e_pair) + len(e_fuzz), nv))
-    negative_samples(ctx, e_str, e_pair + [e for e in f_pairs if e["ev"] == "pair"], f_hash)
+    negative_samples(ctx, e_str, e_pair + f_pairs, f_hash)
     total = len(e_str) + len(e_pair) + len(e_fuzz)
     ctx.count("T", lines=total, lines_with_differences=nv, fuzz_lines=len(e_fuzz),
               panics_recovered=sum(1 for e in e_str + e_pair + e_fuzz if e.get("panic")))
